@@ -686,8 +686,8 @@ func TestC17(t *testing.T) {
 		}
 	}
 
-	rep.CoqFiles = append(rep.CoqFiles, dbf.finish(t, dir), rtf.finish(t, dir))
-	rep.CaseFiles = append(rep.CaseFiles, writeJSONL(t, dir, "C17_db_cases.jsonl", dbJL), writeJSONL(t, dir, "C17_rt_cases.jsonl", rtJL))
+	dbf.finishSharded(t, dir, rep, dbJL, 150)
+	rtf.finishSharded(t, dir, rep, rtJL, 150)
 	rep.Assumptions = append(rep.Assumptions, "slices.BinarySearchFunc returns the smallest index whose element is not less than the target on a sorted slice (standard library)")
 	rep.write(t, dir)
 }
